@@ -59,10 +59,101 @@ def gen_cases(rng, tier):
         cases.append({'m': m, 'sites8': [list(p) for p in pts], 'labels': labels, 'outer': outer, 'inner': inner,
                       'mr': rng.choice([0, 0, 1, 2, 3, 5]), 'dim': rng.randint(1, 3), 'tseed': rng.randrange(10**6),
                       'dt': rng.choice([1e-15, 2e-15, 2.5e-15]), 'site_scale': rng.choice([1.0, 1.0, 1.05]), 'plots': rng.random() < 0.2})
+    # the whole chain from coordinates on a structure with more sites than an 8-bit index can address (oracle only)
+    for _ in range({'quick': 2, 'thorough': 12, 'search': 1}[tier]):
+        g = rng.choice([[6, 6, 5], [7, 5, 6], [5, 8, 7]])
+        nsites = g[0] * g[1] * g[2]
+        pairs = [[5, 6], [rng.randrange(130, nsites - 1)] * 2, [rng.randrange(200 if nsites > 256 else 130, nsites - 1)] * 2]
+        pairs = [[a, a + 1] if a == b else [a, b] for a, b in pairs]
+        cases.append({'kind': 'many', 'grid': g, 'pairs': pairs, 'period': rng.choice([4, 5, 7]), 'T': rng.choice([40, 60])})
     return cases
 
 
+def _many_sites(case):
+    g = case['grid']
+    return [[i / g[0], j / g[1], k / g[2]] for i in range(g[0]) for j in range(g[1]) for k in range(g[2])]
+
+
+def _many_schedule(case):
+    """site of atom a at frame t (-1: in transit, one frame at every change)"""
+    T, per = case['T'], case['period']
+    sched = []
+    for a, (s0, s1) in enumerate(case['pairs']):
+        row = []
+        for t in range(T):
+            ph = (t + a) % (2 * per)
+            row.append(-1 if ph in (per - 1, 2 * per - 1) else (s0 if ph < per else s1))
+        sched.append(row)
+    return sched
+
+
+def _impl_many(case):
+    from gemdat.jumps import Jumps
+    g = case['grid']
+    m = [[4 * g[0], 0, 0], [0, 4 * g[1], 0], [0, 0, 4 * g[2]]]
+    frac = _many_sites(case)
+    labels = ['A' if k % 2 == 0 else 'B' for k in range(len(frac))]
+    sites = synth.make_sites(m, frac, labels=labels)
+    sched = _many_schedule(case)
+    T = case['T']
+    coords = np.zeros((T, len(sched), 3))
+    for a, row in enumerate(sched):
+        s0, s1 = case['pairs'][a]
+        mid = (np.array(frac[s0]) + np.array(frac[s1])) / 2
+        for t, s in enumerate(row):
+            coords[t, a] = (np.array(frac[s]) if s >= 0 else mid) + 0.002 * np.sin(0.7 * t + a)
+    traj = synth.make_traj(m, ['Li'] * len(sched), np.mod(coords, 1))
+    tr = traj.transitions_between_sites(sites, 'Li', site_radius=1.0)
+    j = Jumps(tr)
+    occ = tr.occupancy()
+    return {'many_states': np.asarray(tr.states).T.tolist(), 'many_occ': [float(s.species.num_atoms) for s in occ],
+            'many_tmat_nz': sorted([int(a), int(b), int(tr.matrix()[a, b])] for a, b in zip(*np.nonzero(tr.matrix()))),
+            'many_jmat_nz': sorted([int(a), int(b), int(j.matrix()[a, b])] for a, b in zip(*np.nonzero(j.matrix()))),
+            'many_counter': sorted([a, b, int(c)] for (a, b), c in j.counter().items()),
+            'many_locations': {k: float(v) for k, v in tr.atom_locations().items()}, 'many_njumps': int(j.n_jumps)}
+
+
+def _oracle_many(case, out):
+    if 'many_states' not in out:
+        return [('c05/harness-error', f"{out.get('error')}: {out.get('msg')} {out.get('tb', '')[-300:]}")]
+    fs = []
+    sched = _many_schedule(case)
+    n = len(_many_sites(case))
+    where = f'{n} sites, atoms hopping between {case["pairs"]}'
+    if out['many_states'] != sched:
+        a = next(i for i, (x, y) in enumerate(zip(out['many_states'], sched)) if x != y)
+        fs.append(('matrix/many-sites', f'states of atom {a} are {sorted(set(out["many_states"][a]))}, the atom visits {sorted(set(sched[a]))} ({where})'))
+    T = case['T']
+    want_occ = [sum(row.count(k) for row in sched) / T for k in range(n)]
+    if len(out['many_occ']) != n or any(abs(x - y) > 1e-12 for x, y in zip(out['many_occ'], want_occ)):
+        fs.append(('occupancy/per-site', f'occupancies sum to {sum(out["many_occ"])}, expected {sum(want_occ)} ({where})'))
+    jumps = Counter()
+    for row in sched:
+        seq = [s for s in row if s >= 0]
+        for x, y in zip(seq, seq[1:]):
+            if x != y:
+                jumps[(x, y)] += 1
+    want_nz = sorted([a, b, c] for (a, b), c in jumps.items())
+    if out['many_jmat_nz'] != want_nz:
+        fs.append(('matrix/many-sites', f'non-zero entries of the jump matrix {out["many_jmat_nz"][:6]}, expected {want_nz[:6]} ({where})'))
+    if out['many_njumps'] != sum(jumps.values()):
+        fs.append(('jumps/count-conservation', f'n_jumps {out["many_njumps"]}, the atoms change site {sum(jumps.values())} times ({where})'))
+    lab = lambda k: 'A' if k % 2 == 0 else 'B'
+    cnt = Counter()
+    for (a, b), c in jumps.items():
+        cnt[(lab(a), lab(b))] += c
+    if out['many_counter'] != sorted([a, b, c] for (a, b), c in cnt.items()):
+        fs.append(('counter/aggregation', f'counter {out["many_counter"]}, expected {sorted(cnt.items())} ({where})'))
+    for L in ('A', 'B'):
+        want = sum(want_occ[k] for k in range(n) if lab(k) == L) / len(sched)
+        if abs(out['many_locations'].get(L, 0.0) - want) > 1e-12:
+            fs.append(('occupancy/atom-locations', f'atom_locations[{L}] = {out["many_locations"].get(L)}, expected {want} ({where})'))
+    return fs
+
+
 def impl(case):
+    if case.get('kind') == 'many':
+        return _impl_many(case)
     from gemdat.jumps import Jumps
     from gemdat.transitions import Transitions, _calculate_transition_events
     m = case['m']
@@ -148,6 +239,8 @@ def _factor(case):
 
 
 def oracle(case, out):
+    if case.get('kind') == 'many':
+        return _oracle_many(case, out)
     if 'tmat' not in out:
         return [('c05/harness-error', f"{out.get('error')}: {out.get('msg')} {out.get('tb', '')[-300:]}")]
     fs = synth.inputs_clause(out, 'Transitions / Jumps bookkeeping')
@@ -237,7 +330,7 @@ def oracle(case, out):
 
 
 def coq_term(case, out):
-    if 'tmat' not in out or 'jumps' not in out:
+    if case.get('kind') == 'many' or 'tmat' not in out or 'jumps' not in out:
         return None
     n = len(case['sites8'])
     d2 = _d2(case)
@@ -268,10 +361,14 @@ def coq_term(case, out):
 
 
 def nontrivial(case, out):
+    if case.get('kind') == 'many':
+        return 'many_states' in out
     return 'jumps' in out and len({tuple(j) for j in out['jumps']}) >= 2
 
 
 def classify(case, out):
+    if case.get('kind') == 'many':
+        return ['kind=many-sites']
     tags = [f'sites={len(case["sites8"])}', f'mr={case["mr"]}']
     if any(-1 in e for e in out.get('events', [])):
         tags.append('events-with-nosite')
@@ -283,4 +380,6 @@ def classify(case, out):
 
 
 def sample(case, out):
+    if case.get('kind') == 'many':
+        return {'kind': 'many', 'grid': case['grid'], 'pairs': case['pairs'], 'counter': out.get('many_counter')}
     return {'sites8': case['sites8'], 'labels': case['labels'], 'outer': case['outer'][:2], 'jmat': out.get('jmat'), 'diff': out.get('diff')}
